@@ -162,8 +162,73 @@ func c11(r *rt.Run) {
 			}
 		}
 	})
+	c11MultiRow(r)
 	r.Finish("programs Decl e(A,B) bound[t1,t2]. Decl p(A,B) bound[s1,s2]. <facts of e> <rule> over a type alphabet (11 quick / 17 thorough), 25 rules (copy, swap, constants, constructors, match predicates, accessors, arithmetic, recursion, let-transform) and fact sets drawn from the constants the declaration of e admits; " +
-		"accepted-and-evaluated programs: every stored fact of e and p passes CheckTypeBounds; non-trivial = accepted programs that derive at least one p fact")
+		"a multi-row family (e declared with two bound rows, u/1 with a wide bound, 9 rule shapes incl. a variable bound earlier with a wider type and the 4th/5th distinct variable of a clause, every head row over 6 types and two-row heads); accepted-and-evaluated programs: every stored fact of e and p passes CheckTypeBounds; non-trivial = accepted programs that derive at least one p fact")
+}
+
+// c11MultiRow: declarations with several bound rows. Every alternative row of a body predicate must
+// be reflected in the inferred head type, whatever was inferred for its variables before.
+func c11MultiRow(r *rt.Run) {
+	rowPairs := [][2][2]string{
+		{{"/number", "/number"}, {"/string", "/string"}},
+		{{"/number", "/string"}, {"/name", "/number"}},
+		{{"/a", "/number"}, {"/number", "/a"}},
+		{{"/any", "/number"}, {"/number", "/any"}},
+		{{"/string", "/name"}, {"/string", "/number"}},
+	}
+	rules := []string{
+		"p(X,Y) :- e(X,Y).",
+		"p(Y,X) :- e(X,Y).",
+		"p(X,Y) :- u(X), e(X,Y).",
+		"p(X,Y) :- u(Y), e(X,Y).",
+		"p(X,Y) :- u(X), u(Y), e(X,Y).",
+		"p(X,Y) :- e(X,Y), e(Y,X).",
+		"p(X,W) :- e(X,Y), e(Y,Z), e(Z,W).",
+		"p(A,D) :- u(A), u(B), u(C), e(A,D).",
+		"p(D,E) :- u(A), u(B), u(C), A != B, B != C, e(D,E).",
+	}
+	heads := []string{"/number", "/string", "/name", "/a", "/any", "fn:Union(/number, /string)"}
+	sample := map[string][]string{"/number": {"1", "2"}, "/string": {`"s"`}, "/name": {"/b/x", "/a/x"}, "/a": {"/a/x"}, "/any": {"1", `"s"`, "/a/x"}}
+	uFacts := "u(1).\nu(2).\nu(\"s\").\nu(/a/x).\nu(/b/x).\n"
+	var headDecls []string
+	for _, h1 := range heads {
+		for _, h2 := range heads {
+			headDecls = append(headDecls, fmt.Sprintf("Decl p(A, B) bound [%s, %s].\n", h1, h2))
+		}
+	}
+	headDecls = append(headDecls, "Decl p(A, B) bound [/number, /number] bound [/string, /string].\n", "Decl p(A, B) bound [/number, /string] bound [/name, /number].\n", "Decl p(A, B) bound [/a, /number] bound [/number, /a].\n")
+	type job struct {
+		rp int
+		hd string
+	}
+	var jobs []job
+	for i := range rowPairs {
+		for _, hd := range headDecls {
+			jobs = append(jobs, job{i, hd})
+		}
+	}
+	rt.ForRange(len(jobs), func(ji int) {
+		rp := rowPairs[jobs[ji].rp]
+		decl := fmt.Sprintf("Decl e(A, B) bound [%s, %s] bound [%s, %s].\nDecl u(A) bound [/any].\n", rp[0][0], rp[0][1], rp[1][0], rp[1][1]) + jobs[ji].hd
+		var facts string
+		for _, row := range rp {
+			for _, a := range sample[row[0]] {
+				for _, b := range sample[row[1]] {
+					facts += fmt.Sprintf("e(%s, %s).\n", a, b)
+				}
+			}
+		}
+		for _, rule := range rules {
+			r.Add("multi_row_programs", 1)
+			if !c11Accepts(decl + rule + "\n") {
+				r.Add("programs_rejected", 1)
+				r.Add("states", 1)
+				continue
+			}
+			c11Program(r, decl+uFacts+facts+rule+"\n", nil)
+		}
+	})
 }
 
 func c11Accepts(src string) bool {
